@@ -168,35 +168,49 @@ func (x *Exec) zeroValue(t types.Type) *Value {
 	return &Value{T: x.Sorts.Zero(t), Typ: t}
 }
 
-var nextRefName = "ref"
+// Allocation model: a monotone counter `next`; every reference stored anywhere is
+// below the counter value at the time it was stored (objects are allocated before
+// they are referenced). A new object takes the current counter value.
+func (x *Exec) nextTerm(st *State) string {
+	if t, ok := st.heaps["!next"]; ok {
+		return t
+	}
+	return x.alloc0()
+}
+
+func (x *Exec) alloc0() string {
+	if !x.Reg.Has("alloc0") {
+		x.Reg.Add("alloc0", "(declare-const alloc0 Int)")
+		x.Reg.AddAxiom("alloc0", "alloc0_pos", "(assert (>= alloc0 1))")
+	}
+	return "alloc0"
+}
 
 func (x *Exec) newRef(st *State, name string) string {
 	r := x.freshSort("new_"+name, "Int")
-	// fresh: positive and different from every reference known at entry:
-	// entry references are <= allocBound; new ones are above and mutually distinct.
-	bound := x.allocBound()
-	cnt := 0
-	if v, ok := st.heaps["!alloc"]; ok {
-		fmt.Sscanf(v, "%d", &cnt)
-	}
-	cnt++
-	st.heaps["!alloc"] = fmt.Sprint(cnt)
-	st.assume(eq(r, app("+", bound, fmt.Sprint(cnt))))
+	st.assume(eq(r, x.nextTerm(st)))
+	st.heaps["!next"] = app("+", r, "1")
 	return r
 }
 
-func (x *Exec) allocBound() string {
-	if !x.Reg.Has("alloc_bound") {
-		x.Reg.Add("alloc_bound", "(declare-const alloc_bound Int)")
-		x.Reg.AddAxiom("alloc_bound", "alloc_bound_pos", "(assert (>= alloc_bound 0))")
-	}
-	return "alloc_bound"
+// bumpNext: after a call or a loop havoc the counter is some later value.
+func (x *Exec) bumpNext(st *State) {
+	n := x.freshSort("next", "Int")
+	st.assume(app(">=", n, x.nextTerm(st)))
+	st.heaps["!next"] = n
 }
 
-// knownRef states that a reference read from the pre-existing heap is not newer
-// than the entry allocation bound... only valid for values existing at entry.
-func (x *Exec) assumeOldRef(st *State, t string) {
-	st.assume(app("<=", t, x.allocBound()))
+// refBound states that a reference-like value read now is already allocated.
+func (x *Exec) assumeAllocated(st *State, v *Value) {
+	if v.T == "" || v.Typ == nil {
+		return
+	}
+	switch v.Typ.Underlying().(type) {
+	case *types.Pointer, *types.Map, *types.Chan:
+		st.assume(app("<", v.T, x.nextTerm(st)))
+	case *types.Slice:
+		st.assume(app("<", app("s_arr", v.T), x.nextTerm(st)))
+	}
 }
 
 func (x *Exec) ptrOfChecked(st *State, v *Value, ins ssa.Instruction) *Pointer {
@@ -1303,6 +1317,8 @@ func (x *Exec) next(st *State, ins *ssa.Next) *Value {
 		x.Reg.Add("rune_at", "(declare-fun rune_at (Str Int) Int)", "Str")
 		x.Reg.Add("rune_w", "(declare-fun rune_w (Str Int) Int)", "Str")
 		x.Reg.AddAxiom("rune_w", "rune_w_range", "(assert (forall ((s Str) (i Int)) (! (and (<= 1 (rune_w s i)) (<= (rune_w s i) 4) (=> (< (sat s i) 128) (and (= (rune_w s i) 1) (= (rune_at s i) (sat s i)))) (=> (>= (sat s i) 128) (>= (rune_at s i) 128)) (=> (< i (slen s)) (<= (+ i (rune_w s i)) (slen s)))) :pattern ((rune_w s i)))))")
+		// bytes skipped inside a multi-byte rune are continuation bytes (>= 0x80): never ASCII
+		x.Reg.AddAxiom("rune_w", "rune_w_cont", "(assert (forall ((s Str) (i Int) (j Int)) (! (=> (and (< i j) (< j (+ i (rune_w s i)))) (>= (sat s j) 128)) :pattern ((rune_w s i) (sat s j)))))")
 		w := app("rune_w", s, pos)
 		r := app("rune_at", s, pos)
 		st.assume(app("<=", "0", pos))
